@@ -40,6 +40,7 @@ def bndBin (o : VBin) (a b : Int × Int) : Int × Int :=
 
 def inRangeB (w : Nat) (s : Bool) (b : Int × Int) : Bool := inRange w s b.1 && inRange w s b.2
 
+mutual
 /-- Range of the unbounded value of a Verilog expression, over all signal valuations. -/
 def bounds : VExpr → Int × Int
   | .lit w s v => (truncS w s v, truncS w s v)
@@ -50,11 +51,19 @@ def bounds : VExpr → Int × Int
   | .cond _ a b => (min (bounds a).1 (bounds b).1, max (bounds a).2 (bounds b).2)
   | .psel _ hi lo => (0, p2 (hi - lo + 1) - 1)
   | .bsel _ _ => (0, 1)
-  | .concat l => (0, p2 (concatWidth l) - 1)
+  | .concat l => (0, concatHi l)
   | .repl n a => (0, p2 (n * selfWidth a) - 1)
   | .signed a =>
     if decide (0 < selfWidth a) && inRangeB (selfWidth a) true (bounds a) then bounds a
     else (-(p2 (selfWidth a - 1)), p2 (selfWidth a - 1) - 1)
+/-- Upper bound of a concatenation: each element contributes its own upper bound when it is known to be a
+    non-negative number of its width (so that `{1'd0, x}` is known to have a clear top bit), else all ones. -/
+def concatHi : List VExpr → Int
+  | [] => 0
+  | e :: es =>
+    (if 0 ≤ (bounds e).1 ∧ (bounds e).2 < p2 (selfWidth e) then (bounds e).2 else p2 (selfWidth e) - 1)
+      * p2 (concatWidth es) + concatHi es
+end
 
 def sfitsAt (w W : Nat) (sg : Bool) (b : Int × Int) : Bool :=
   decide (0 < w) && (decide (W = w) || inRangeB w sg b)
@@ -83,7 +92,7 @@ def sfitsV : VExpr → Nat → Bool → Bool
       && sfitsAt (hi - lo + 1) W sg (0, p2 (hi - lo + 1) - 1)
   | .bsel a i, W, sg =>
     sfitsV a (selfWidth a) (selfSigned a) && decide (i < selfWidth a) && sfitsAt 1 W sg (0, 1)
-  | .concat l, W, sg => sfitsConcat l && sfitsAt (concatWidth l) W sg (0, p2 (concatWidth l) - 1)
+  | .concat l, W, sg => sfitsConcat l && sfitsAt (concatWidth l) W sg (0, concatHi l)
   | .repl n a, W, sg =>
     sfitsV a (selfWidth a) (selfSigned a) && sfitsAt (n * selfWidth a) W sg (0, p2 (n * selfWidth a) - 1)
   | .signed a, W, sg =>
